@@ -139,10 +139,15 @@ item("unlockSha1Len", ENC, r"S2kParams::Cfb \{ sym_alg, s2k, iv \} => \{.*?if pl
 item("unlockSha1Split", ENC, r"split_at\(self\.data\.len\(\) - (\d+)\)", "unlock Cfb: SHA-1 split offset from the end")
 item("unlockLegacyMin", ENC, r"S2kParams::LegacyCfb \{ sym_alg, iv \} => \{.*?if plaintext\.len\(\) < (\d+) \{", "unlock LegacyCfb: minimum plaintext length")
 item("unlockMalleableMin", ENC, r"S2kParams::MalleableCfb \{ sym_alg, s2k, iv \} => \{.*?if plaintext\.len\(\) < (\d+) \{", "unlock MalleableCfb: minimum plaintext length")
-item("plainChecksumLen", PLN, r"pub fn try_from_reader<B: BufRead>\(.*?let checksum = i\.read_arr::<(\d+)>\(\)\?;", "PlainSecretParams::try_from_reader checksum size")
+item("plainChecksumLen", PLN,
+     lambda t: (lambda m: int(m.group(1) or m.group(2)) if m else None)(
+         re.search(r"pub fn try_from_reader<B: BufRead>\(.*?(?:let checksum = i\.read_arr::<(\d+)>\(\)\?;|data\.split_at\(data\.len\(\) - (\d+)\))", t, re.S)),
+     "PlainSecretParams::try_from_reader checksum size")
 item("plainChecksumVersionsV3V4", PLN,
-     lambda t: 1 if re.search(r"pub fn try_from_reader<B: BufRead>\(.*?if version == KeyVersion::V3 \|\| version == KeyVersion::V4 \{\s*let checksum", t, re.S) else None,
+     lambda t: 1 if re.search(r"pub fn try_from_reader<B: BufRead>\([^{]*\{(?:\s*let params = [^;]*;)?\s*if version == KeyVersion::V3 \|\| version == KeyVersion::V4 \{(?:(?!\n    \}).)*?checksum", t, re.S) else None,
      "PlainSecretParams::try_from_reader: checksum read exactly for V3 | V4 (1 = yes)")
+flag("fixD8eChecksumOverStoredOctets", PLN, r"pub fn try_from_reader<B: BufRead>\(.*?checksum::calculate_simple\(material\)",
+     "D8e repaired: the two-octet checksum of v3/v4 secret material is computed over the octets as stored (not over a re-encoding of the parsed values)")
 item("tagSecretKey", TPK, r"\bSecretKey = (\d+),", "Tag::SecretKey")
 item("tagSecretSubkey", TPK, r"\bSecretSubkey = (\d+),", "Tag::SecretSubkey")
 item("keyVersionV4", TPK, r"pub enum KeyVersion \{.*?\bV4 = (\d+),", "KeyVersion::V4")
